@@ -783,6 +783,8 @@ static void h_schema_opt(h_schema *sc, const char **pp, cfg_opt_t *o)
 			h_bad = 1;
 		else if (!strncmp(t, "parse:", 6))
 			o->parsecb = h_parse_tab[k], defparse = 0;
+		else if (!strncmp(t, "noparse:", 8))	/* a pointer option declared WITHOUT a value parser */
+			o->parsecb = NULL, defparse = 0;
 		else if (!strncmp(t, "valid:", 6))
 			o->validcb = h_valid_tab[k];
 		else if (!strncmp(t, "valid2:", 7))
